@@ -933,6 +933,12 @@ func main() {
 	if !refSelfCheck() {
 		r.Inconclusive("reference epoch constants disagree with civil day counts")
 	}
+	// race side run (./check builds this monitor with -race): only the workloads in which goroutines
+	// use the library at the same time; the detector's reports are filed by Finish
+	if mon.SideRace() {
+		stateMonitors()
+		r.Finish()
+	}
 	var wg sync.WaitGroup
 	for _, f := range []func(){familyFILETIME, familyLDAP, familyDateTime, familyUUID, stateMonitors /* state.go */} {
 		wg.Add(1)
